@@ -55,7 +55,11 @@ const DETAILS: &[Details] = &[
         target_os = "macos"
     ))]
     s!(SIGINFO, Ignore),
-    #[cfg(not(target_os = "haiku"))]
+    // On Linux (where it is the same signal as SIGPOLL) the default action is to terminate, the
+    // BSDs and macOS ignore it.
+    #[cfg(any(target_os = "linux", target_os = "android"))]
+    s!(SIGIO, Term),
+    #[cfg(not(any(target_os = "haiku", target_os = "linux", target_os = "android")))]
     s!(SIGIO, Ignore),
     // Can't override anyway, but...
     s!(SIGKILL, Term),
